@@ -179,8 +179,31 @@ package unmarshal
 // customErrors constructors: never nil.
 //@ func parseTime
 //@   modifies nothing
-//@ func sanitizeLabels
-//@   modifies nothing
+// The one label sanitiser shared by the Loki JSON (both layouts), Loki protobuf,
+// remote-write and Influx decoders: the name is rewritten with the label-name pattern,
+// a value of AT MOST 100 bytes is stored as it was sent (two streams that differ only
+// there stay two streams), a longer one is cut to its first 100 bytes plus "...".
+// Nothing else changes, and the list handed back is the list given (lastSanitized
+// remembers it, so a decoder can be asked to hand on exactly that list).
+//@ ghost var lastSanitized [][]string
+// (rows: every row is a name / value pair in storage of its own - what the decoders
+// build; stated as the hypothesis of the clauses, not demanded from callers.)
+//@ spec fn labelRows(l [][]string) bool = (forall k int :: 0 <= k && k < len(l) ==> len(l[k]) == 2) && (forall k int, j int :: 0 <= k && k < j && j < len(l) ==> !aliases(l[k], l[j]))
+//@ func sanitizeLabels [C03,C04]
+//@   flag checks=-assert,-index
+//@   modifies allelems(string), lastSanitized
+//@   ghostset lastSanitized = lbls
+//@   ensures same-list: aliases(result, lbls) && len(result) == len(lbls)
+//@   ensures value-within-the-limit-is-kept: old(labelRows(lbls)) ==> (forall k int :: 0 <= k && k < len(lbls) && len(old(lbls[k][1])) <= 100 ==> lbls[k][1] == old(lbls[k][1]))
+//@   ensures longer-value-is-cut-to-100-bytes: old(labelRows(lbls)) ==> (forall k int :: 0 <= k && k < len(lbls) && len(old(lbls[k][1])) > 100 ==> lbls[k][1] == old(lbls[k][1])[:100] + "...")
+//@   ensures name-by-the-label-pattern: old(labelRows(lbls)) ==> (forall k int :: 0 <= k && k < len(lbls) ==> lbls[k][0] == reRepl(sanitizeRe, old(lbls[k][0]), "_"))
+//@   loop 1:
+//@     invariant rangeindex >= -1 && rangeindex + 1 <= len(lbls)
+//@     invariant old(labelRows(lbls)) ==> (forall k int :: 0 <= k && k <= rangeindex && len(old(lbls[k][1])) <= 100 ==> lbls[k][1] == old(lbls[k][1]))
+//@     invariant old(labelRows(lbls)) ==> (forall k int :: 0 <= k && k <= rangeindex && len(old(lbls[k][1])) > 100 ==> lbls[k][1] == old(lbls[k][1])[:100] + "...")
+//@     invariant old(labelRows(lbls)) ==> (forall k int :: 0 <= k && k <= rangeindex ==> lbls[k][0] == reRepl(sanitizeRe, old(lbls[k][0]), "_"))
+//@     invariant old(labelRows(lbls)) ==> (forall k int :: rangeindex < k && k < len(lbls) ==> lbls[k][0] == old(lbls[k][0]) && lbls[k][1] == old(lbls[k][1]))
+//@     modifies allelems(string)
 //@ func parseLabelsLokiFormat
 //@   modifies nothing
 
@@ -230,7 +253,13 @@ package unmarshal
 //@   modifies p.TsNs, p.String, p.Value, p.Types
 //@   ensures bufOK(p)
 
-//@ func (*pushRequestDec).decodeStreamStream
+// The "stream": {...} layout hands on the label list the sanitiser returned - like
+// every other ingest path, so one label set is one series whatever the protocol.
+//@ func (*pushRequestDec).decodeStreamStream [C04]
+//@   flag checks=-assert,-index
+//@   modifies p.Labels, allelems(string), lastSanitized
+//@   ensures hands-on-the-sanitized-list: result == nil ==> aliases(p.Labels, lastSanitized) && len(p.Labels) == len(lastSanitized)
+//@ func (*pushRequestDec).decodeStreamStream$1
 //@   modifies p.Labels
 //@ func (*pushRequestDec).decodeStreamLabels
 //@   modifies p.Labels
@@ -238,11 +267,11 @@ package unmarshal
 //@ func (*pushRequestDec).decodeStream [C03]
 //@   requires bufOK(p)
 //@   requires own-labels: len(p.Labels) == 0 && len(p.TsNs) == 0
-//@   modifies p.TsNs, p.String, p.Value, p.Types, p.Labels
+//@   modifies p.TsNs, p.String, p.Value, p.Types, p.Labels, allelems(string), lastSanitized
 //@   ensures result == nil ==> bufOK(p)
 //@ func (*pushRequestDec).decodeStream$1 [C03]
 //@   requires bufOK(p)
-//@   modifies p.TsNs, p.String, p.Value, p.Types, p.Labels
+//@   modifies p.TsNs, p.String, p.Value, p.Types, p.Labels, allelems(string), lastSanitized
 //@   ensures result == nil ==> bufOK(p)
 
 // One stream object: buffers are emptied, filled by decodeStream and handed to
